@@ -274,7 +274,7 @@ def mon_c04(ctx, rec):
     out = []
     for col in ("IrrDay", "Runoff", "DeepPerc", "CR", "GwIn", "Es", "EsPot", "Tr", "TrPot"):
         v = fx(rec, col)
-        lim = 0.0
+        lim = -1e-9   # a sign is decided beyond floating-point rounding (1e-9 mm; the statement's own scale for rounding is 1e-6 mm)
         if col == "IrrDay" and ctx.irr_method == 4:
             lim = -0.01 * ctx.ncomp
         if not (v >= lim):
